@@ -11,12 +11,12 @@ RECURSIVE ToNatS(_, _, _)
 ToNatS(s, i, acc) == IF i > Len(s) THEN acc
                      ELSE ToNatS(s, i + 1, acc * 10 + (CHOOSE d \in 0..9 : ToString(d) = SubSeq(s, i, i)))
 MaxCallsDef == ToNatS(IOEnv.MAXCALLS, 1, 0)
-AllOps == {"AddUnit", "AddUnitBase", "AddCategory", "Clear", "CheckCategoryUnit", "CheckQuantityTypeUnit", "GetValidUnits",
+AllOps == {"AddUnit", "AddUnitBase", "AddUnitBad", "CountUnits", "AddCategory", "Clear", "CheckCategoryUnit", "CheckQuantityTypeUnit", "GetValidUnits",
            "GetDefaultUnit", "GetDefaultValue", "GetBaseUnit", "GetUnits", "GetQuantityType", "GetDefaultCategory",
            "Convert", "Obtain", "Scalar", "ObjGetValidUnits"}
 OpsDef == IF IOEnv.OPS = "all" THEN AllOps
-          ELSE IF IOEnv.OPS = "reg" THEN {"AddUnit", "AddUnitBase", "AddCategory", "Clear"}
-          ELSE IF IOEnv.OPS = "c14" THEN {"AddUnit", "AddUnitBase", "AddCategory", "Clear", "Scalar", "GetValidUnits", "GetBaseUnit", "Convert"}
+          ELSE IF IOEnv.OPS = "reg" THEN {"AddUnit", "AddUnitBase", "AddUnitBad", "AddCategory", "Clear"}
+          ELSE IF IOEnv.OPS = "c14" THEN {"AddUnit", "AddUnitBase", "AddUnitBad", "AddCategory", "Clear", "Scalar", "GetValidUnits", "GetBaseUnit", "Convert"}
           ELSE IF IOEnv.OPS = "cache" THEN {"AddUnit", "AddUnitBase", "AddCategory", "CheckCategoryUnit", "Obtain", "Scalar"}
           ELSE AllOps
 InvalidateDef == IOEnv.INVALIDATE # "0"
